@@ -259,6 +259,13 @@ async fn run_script(cfg_flags: u64, peer_flags: u64, connect: bool, steps: Vec<S
                     },
                 }
             }
+            "Q" => {
+                let data = unhex(t.next());
+                out.push(match conn.send_raw(&data).await {
+                    Ok(()) => "ok".to_string(),
+                    Err(e) => format!("err {}", err_class(&e)),
+                });
+            }
             "W" => match conn.receive_raw().await {
                 Ok(b) => out.push(format!("raw {}", hex(&b))),
                 Err(e) => out.push(err_class(&e).to_string()),
